@@ -373,6 +373,39 @@ def t1_matcher_inclusive_windows(F, r):
         raise AnchorError(f"only {n} window tests found in the activity matcher (4 counted on the pinned tree)")
 
 
+def m1_place_chosen_by_location_and_time(F, r):
+    """re-reading a solution: a job may offer several places at ONE location with different windows; the place an activity belongs to is the one whose location matches AND
+    whose window the activity's interval touches — both tests sit in the predicate that selects the place (a location-only `find` commits to the first place and then fails)"""
+    root = "vrp_pragmatic::format::solution::activity_matcher::match_place"
+    if root not in F.fns:
+        raise AnchorError(root)
+    n = 0
+    for g in F.family(root):
+        fn = F.fns[g]
+        for bi, t in mir.calls(fn):
+            if t["callee"].split("::")[-1] not in ("find", "position", "find_map", "filter") or not t["callee"].startswith("core::iter::traits::iterator::Iterator::") or not t["ga"]:
+                continue
+            if "jobs::Place" not in t["ga"][0] or len(t["ga"]) < 2:
+                continue
+            import re as _re
+            m_ = _re.search(r"\{closure@[^:}]+:(\d+):(\d+)", t["ga"][-1])
+            cl = [c for c in F.family(root) if m_ and F.fns[c]["kind"] == "Closure" and F.loc(c).endswith(":" + m_.group(1))]
+            if not cl:
+                continue
+            n += 1
+            bodies = [h for c in cl for h in F.fns if (h == c or h.startswith(c + "::")) and "::promoted[" not in h]      # the predicate and the closures nested in it
+            calls = {tt["callee"].split("::")[-1] for h in bodies for _, tt in mir.calls(F.fns[h])}
+            eqs = any(tt["callee"] in ("core::cmp::PartialEq::eq", "core::cmp::PartialEq::ne") for h in bodies for _, tt in mir.calls(F.fns[h])) or \
+                any(st["r"]["k"] == "bin" and st["r"].get("op") in ("Eq", "Ne") for h in bodies for _, _, st in mir.stmts(F.fns[h]))
+            if "intersects" in calls and eqs:
+                r.ok("match_place: place predicate", "a place is selected by its location and by a window the activity touches")
+            else:
+                r.fail("match_place: place predicate", "the place of an activity is selected by " + ("location only" if eqs else "time only") + ": with alternative places at one location "
+                       "the first one is taken, its windows do not fit, and a solution the solver wrote cannot be read back (`cannot match job`)", F.loc(g, t["ln"]))
+    if n == 0:
+        r.ok("match_place: place predicate", "not decided: no find / position over the job's places with a closure predicate")
+
+
 def run(ctx):
     ctx.explanation = (
         "serde symmetry of the pragmatic document models (syn AST scan joined with type facts): every document type derives both Serialize and Deserialize, "
@@ -386,6 +419,7 @@ def run(ctx):
     ctx.run("C11-S2", "untagged variants distinguishable on re-reading; tagged variants unique", s2_untagged, floor=8)
     ctx.run("C11-I1", "initial-solution reader visits every tour / stop / activity of the document", i1_reader_visits_everything, floor=3)
     ctx.run("C11-B1", "optional break job ids are consecutive (the re-reader stops at the first missing id)", b1_break_ids_consecutive, floor=1)
+    ctx.run("C11-M1", "activity matcher: a place is selected by location AND time in one predicate", m1_place_chosen_by_location_and_time, floor=1)
     ctx.run("C11-T1", "activity matcher: place windows are tested inclusively (a job served at the end of its window is matched)", t1_matcher_inclusive_windows, floor=3)
     ctx.run("C11-I2", "CSV import groups rows by id, not by adjacency", i2_csv_grouping, floor=1)
     ctx.run("C11-S4", "CSV import records: every column consumed", s4_csv_liveness, floor=10)
